@@ -191,7 +191,7 @@ func verifNewMemoryFile(c int) *File {
 func VerifMemoryFileVsOSFile() {
 	c := verif.Len("capacity", 0, verif.Bound("capacity", 2, 3))
 	verifC12Run(verifNewMemoryFile(c), verifRefFile(nil), verifC12Cfg{writable: true},
-		verif.Bound("ops", 3, 4), verif.Bound("len", 2, 2), verif.Bound("off", 3, 3))
+		verif.Bound("ops", 2, 3), verif.Bound("len", 2, 2), verif.Bound("off", 3, 3))
 }
 
 // VerifBufferReadWriterVsOSFile: base.BufferReadWriter (aws.WriteAtBuffer)
@@ -199,7 +199,7 @@ func VerifMemoryFileVsOSFile() {
 func VerifBufferReadWriterVsOSFile() {
 	c := verif.Len("capacity", 0, verif.Bound("capacity", 2, 3))
 	verifC12Run(base.NewBufferReadWriter(uint64(c)), verifRefFile(nil), verifC12Cfg{writable: true},
-		verif.Bound("ops", 3, 4), verif.Bound("len", 2, 2), verif.Bound("off", 3, 3))
+		verif.Bound("ops", 2, 3), verif.Bound("len", 2, 2), verif.Bound("off", 3, 3))
 }
 
 // ---- one operation from an arbitrary reachable state (inductive step) ----
